@@ -45,6 +45,18 @@ LAYOUTS = [
     {'style': 'block', 'dashsplit': True},
     {'style': 'flow', 'docstart': True},
     {'style': 'block', 'lead': 3},
+    # the same values in other scalar styles: single-quoted / plain / `|-` / `>-` block scalars, anchors with
+    # aliases for every repeated text (ruamel delivers anchored and block scalars as str SUBCLASSES), and the
+    # decorators of a step pulled in through a merge key from an anchored mapping (`<<: *m1`)
+    {'style': 'block', 'scalars': 'single'},
+    {'style': 'block', 'anchors': True},
+    {'style': 'block', 'scalars': 'literal'},
+    {'style': 'block', 'scalars': 'folded', 'anchors': True, 'indent': 4},
+    {'style': 'block', 'merge': True},
+    {'style': 'flow', 'anchors': True},
+    {'style': 'block', 'scalars': 'mixed', 'merge': True, 'anchors': True},
+    {'style': 'wrap', 'scalars': 'single', 'perline': True},
+    {'style': 'block', 'scalars': 'mixed', 'dashsplit': True},
 ]
 
 
